@@ -5,6 +5,7 @@ _COMMON = [
 SPEC = dict(
     harness=['h_str.c'],
     level='exploration',
+    memcheck_cases={'thorough': 1600},
     rule='seeded histories of 30-70 operations on two string objects: all append forms (catc/catn/cats/cat and their non-terminating _ twins, catf and '
          'catv with formats from a closed printf grammar, a_utf_catc), getc/getn (+_), the six trim entry points with 7 trim sets (empty = whitespace, '
          'sets containing NUL and bytes >= 0x80), setn/setn_, setm/setm_ (incl. exact fit len == mem), swap, exit + re-use, cmp/cmpn/cmps/cmp_, at/of. '
